@@ -193,7 +193,7 @@ func TestC18Jar(t *testing.T) {
 					}
 					o.violation(map[string]any{"check": "jar-" + e.Op, "prop": "C18", "what": fail, "history": hist[:step+1], "step": step,
 						"uses_nonroot_path": fmt.Sprint(nonroot),
-						"expected_pairs": pairsKey(e.Seen), "observed_pairs": pairsKey(got), "url": url})
+						"expected_pairs":    pairsKey(e.Seen), "observed_pairs": pairsKey(got), "url": url})
 					break
 				}
 			}
